@@ -68,7 +68,8 @@ class GroupingService:
             DataFrame with duplicate values replaced with null
         """
         # Create a mask for rows where the value is different from the previous row
-        is_first_occurrence = (df[column] != df[column].shift(1)) | (
+        # (null-aware: a null key equals only another null key)
+        is_first_occurrence = df[column].ne_missing(df[column].shift(1)) | (
             pl.int_range(df.height) == 0
         )  # First row is always shown
 
@@ -99,7 +100,7 @@ class GroupingService:
         Returns:
             DataFrame with hierarchical value suppression
         """
-        result_df = df.clone()
+        suppressed_columns = []
 
         for i, column in enumerate(group_by):
             # For hierarchical grouping, a value should be shown if:
@@ -113,11 +114,14 @@ class GroupingService:
             conditions.append(pl.int_range(df.height) == 0)
 
             # Higher-level columns changed condition
+            # (null-aware comparisons: a null key equals only another null key)
             for higher_col in group_by[:i]:
-                conditions.append(pl.col(higher_col) != pl.col(higher_col).shift(1))
+                conditions.append(
+                    pl.col(higher_col).ne_missing(pl.col(higher_col).shift(1))
+                )
 
             # This column changed condition
-            conditions.append(pl.col(column) != pl.col(column).shift(1))
+            conditions.append(pl.col(column).ne_missing(pl.col(column).shift(1)))
 
             # Combine all conditions with OR
             should_show = conditions[0]
@@ -128,9 +132,11 @@ class GroupingService:
             suppressed_values = (
                 pl.when(should_show).then(pl.col(column)).otherwise(None)
             )
-            result_df = result_df.with_columns(suppressed_values.alias(column))
+            suppressed_columns.append(suppressed_values.alias(column))
 
-        return result_df
+        # Evaluate every level against the ORIGINAL values: comparing against
+        # already suppressed (nulled) higher levels would hide their changes.
+        return df.with_columns(suppressed_columns)
 
     def restore_page_context(
         self,
